@@ -13,6 +13,9 @@ foreach t0 k1:3 k2:0 ...        callback flag word per ident (default 1 = CONTIN
 hashic <hex> | eqic <hex> <hex> case-insensitive hash / equality of byte_buf.c
 hl2 <hex>                       aws_hash_byte_cursor_ptr at the 4 alignments, aws_hash_string, aws_hash_c_string at the 4 alignments
 hl2v / hl2sv / hptrv / hcombv    the same against source/hash_table.c compiled with -DVALGRIND
+tinit str|cstr|cur|u64|ptr <size> | tput <key> v3 | tfind <key> | trem <key> | tclean
+                                a table keyed through the library's own hash / equality (/ destroy) callbacks
+pair <kind> <a> <b>             the pair itself: eq callback and whether the two hashes agree | lowertab
 hl2s <hexkey> <hexafter>        the key as a sub-view of a larger buffer: following bytes vary, all 4 alignments
 hptr <hex64> | hcomb <hex64> <hex64>   aws_hash_ptr, aws_hash_combine
 ```
@@ -32,6 +35,8 @@ structure St where
   hashes : List (Nat × Nat) := []
   tables : List (String × Option Table) := []
   iters : List ItSt := []
+  tkind : Option String := none               -- typed table (library hash/equality pair): kind
+  tmap : List (String × String) := []         -- its reference contents: canonical key ↦ value token
 
 def St.h (s : St) : Nat → Nat := fun i => match s.hashes.find? (·.1 == i) with
   | some (_, v) => v
@@ -172,6 +177,80 @@ def hashOp? (t : List String) : Option (List String) :=
     else none
   | _ => none
 
+/-! ### tables keyed through the library's own pairs (reference map only: P lines) and direct pair checks -/
+
+def hexNum (n : Nat) : String := String.ofList (Nat.toDigits 16 n)
+
+/-- what the pair's equality sees of a key token -/
+def canonKey? (kind tok : String) : Option String :=
+  if kind == "u64" || kind == "ptr" then (parseHexNat? tok).map fun n => hexNum (n % 2 ^ 64)
+  else if kind == "cstr" then (parseHex? tok).map fun bs => hexOf (bs.takeWhile (· ≠ 0))
+  else if kind == "str" || kind == "cur" then (parseHex? tok).map hexOf
+  else none
+
+def pairHash? (kind tok : String) : Option Nat :=
+  if kind == "u64" then (parseHexNat? tok).map (· % 2 ^ 64)
+  else if kind == "ptr" then (parseHexNat? tok).map fun n => AwsVerif.Lookup3.hashPtr (n % 2 ^ 64)
+  else if kind == "cstr" then (parseHex? tok).map AwsVerif.Lookup3.hashCStr
+  else if kind == "str" || kind == "cur" then (parseHex? tok).map AwsVerif.Lookup3.hashBytes
+  else none
+
+def typedLine (m : List (String × String)) : String :=
+  s!"P TC n={m.length} " ++ joinOrDash (sortStrs (m.map fun kv => kv.1 ++ "=" ++ kv.2))
+
+def typedOp? (s : St) (t : List String) : Option (St × List String) :=
+  match t with
+  | ["tinit", kind, sz] =>
+    match canonKey? kind "00", parseSize? sz with
+    | some _, some _ =>
+      if s.tkind.isSome then some (s, ["P tinit refused"])
+      else some ({ s with tkind := some kind, tmap := [] }, ["P tinit OK", typedLine []])
+    | _, _ => some (s, ["bad-op"])
+  | ["tput", k, v] =>
+    match parseVal? v with
+    | none => some (s, ["bad-op"])
+    | some v =>
+      match s.tkind with
+      | none => some (s, ["P nil"])
+      | some kind =>
+        match canonKey? kind k with
+        | none => some (s, ["bad-op"])
+        | some ck =>
+          let created := !(s.tmap.any (·.1 == ck))
+          let m := (ck, showVal v) :: s.tmap.filter (·.1 != ck)
+          some ({ s with tmap := m }, [s!"P tput created={if created then 1 else 0}", typedLine m])
+  | ["tfind", k] =>
+    match s.tkind with
+    | none => some (s, ["P nil"])
+    | some kind =>
+      match canonKey? kind k with
+      | none => some (s, ["bad-op"])
+      | some ck => match s.tmap.find? (·.1 == ck) with
+        | some kv => some (s, [s!"P tfind {kv.1}={kv.2}"])
+        | none => some (s, ["P tfind none"])
+  | ["trem", k] =>
+    match s.tkind with
+    | none => some (s, ["P nil"])
+    | some kind =>
+      match canonKey? kind k with
+      | none => some (s, ["bad-op"])
+      | some ck =>
+        let present := s.tmap.any (·.1 == ck)
+        let m := s.tmap.filter (·.1 != ck)
+        some ({ s with tmap := m }, [s!"P trem present={if present then 1 else 0}", typedLine m])
+  | ["tclean"] =>
+    match s.tkind with
+    | none => some (s, ["P nil"])
+    | some _ => some ({ s with tkind := none, tmap := [] }, ["P tclean"])
+  | ["pair", kind, a, b] =>
+    match canonKey? kind a, canonKey? kind b, pairHash? kind a, pairHash? kind b with
+    | some ca, some cb, some ha, some hb =>
+      some (s, [s!"P pair eq={if ca == cb then 1 else 0} hasheq={if ha == hb then 1 else 0}"] ++
+        (if kind == "u64" then ["W pair u64hash=" ++ hex64 ha] else []))
+    | _, _, _, _ => some (s, ["bad-op"])
+  | ["lowertab"] => some (s, ["P lowertab " ++ hexOf AwsVerif.Gen.tolowerTable.toList])
+  | _ => none
+
 def stepTable (s : St) (t : List String) : St × List String :=
   match t with
   | ["hash", k, hx] => match parseIdent? k, parseHexNat? hx with
@@ -301,7 +380,9 @@ def stepTable (s : St) (t : List String) : St × List String :=
 def step (s : St) (t : List String) : St × List String :=
   match hashOp? t with
   | some out => (s, out)
-  | none => stepTable s t
+  | none => match typedOp? s t with
+    | some r => r
+    | none => stepTable s t
 
 def component : Component := { σ := St, init := {}, step := step }
 end Driver.HashTableD
